@@ -57,7 +57,8 @@ Definition add_link (g : cgraph) (u l d : obj) : cgraph :=
   else {| c_nodes := c_nodes g; c_edges := c_edges g ++ [{| c_up := u; c_down := d; c_link := l |}] |}.
 
 (* Network.add_path (network.py:304-382): errors leave the calls made so far in effect *)
-Inductive cerr := CTypeErr | CValueErr | CStopIter.
+Inductive cerr := CTypeErr | CValueErr | CStopIter
+  | CUnbound.   (* UnboundLocalError: only in the regenerated text (gen/ConstructGen.v), proved unreachable *)
 Definition is_node (x : obj) : bool := match x with ONode _ => true | _ => false end.
 Definition is_link (x : obj) : bool := match x with OLink _ => true | _ => false end.
 
